@@ -54,6 +54,8 @@ package introspection
 // descriptions, types and default values taken from the element at hand; skipped are exactly the "__" fields and,
 // unless includeDeprecated, the deprecated ones; one output field per eligible schema field, in order.
 //@ func (*Type).Fields [C16]
+// (frame: no field of any schema object is written; the slices being built are appended to)
+//@   modifies elems
 //@   replay introspectionFields.go.tmpl
 //@   requires t != nil && t.schema != nil
 //@   ghost pfx = false
@@ -81,6 +83,8 @@ package introspection
 //@   ensures len(res0) == eligible
 
 //@ func (*Type).InputFields [C16]
+// (frame: no field of any schema object is written; the slices being built are appended to)
+//@   modifies elems
 //@   requires t != nil && t.schema != nil
 //@   ghost wrapped = 0
 //@   ghost dflt = 0
@@ -94,6 +98,8 @@ package introspection
 //@   ensures t.def != nil && t.def.Kind == ast.InputObject ==> len(res0) == len(t.def.Fields)
 
 //@ func (*Type).EnumValues [C16]
+// (frame: no field of any schema object is written; the slices being built are appended to)
+//@   modifies elems
 //@   requires t != nil
 //@   ghost eligible = 0
 //@   at `val.Directives.ForName("deprecated")`#1 ghost eligible = eligible + ite(includeDeprecated || callres0 == nil, 1, 0)
@@ -102,11 +108,15 @@ package introspection
 //@   ensures calls(ForName) >= 0
 
 //@ func (*Type).Interfaces [C16]
+// (frame: no field of any schema object is written; the slices being built are appended to)
+//@   modifies elems
 //@   requires t != nil
 //@   at `WrapTypeFromDef(t.schema, t.schema.Types[intf])` requires arg0 == t.schema
 //@   loop 1: invariant len(res) == idx1
 //@   ensures t.def != nil && t.def.Kind == ast.Object ==> len(res0) == len(t.def.Interfaces)
 //@ func (*Type).PossibleTypes [C16]
+// (frame: no field of any schema object is written; the slices being built are appended to)
+//@   modifies elems
 //@   requires t != nil
 //@   ghost n = 0
 //@   at `t.schema.GetPossibleTypes(t.def)` requires arg0 == t.def
@@ -134,6 +144,7 @@ package introspection
 
 // directive definitions: one argument per definition argument, at its own index, with its own name/description
 //@ func (*Schema).directiveFromDef [C16]
+//@   modifies nothing
 //@   requires s != nil && d != nil && s.schema != nil
 //@   ghost wrapped = 0
 //@   ghost dflt = 0
@@ -147,3 +158,12 @@ package introspection
 //@   replay introspectionFields.go.tmpl
 //@   ensures res0.Name == old(d.Name) && res0.description == old(d.Description) && res0.IsRepeatable == old(d.IsRepeatable)
 //@   ensures len(res0.Args) == old(len(d.Arguments)) && len(res0.Locations) == old(len(d.Locations))
+
+// The schema is shared by every request (and by validation): introspection only reads it. Unwrapping a NON_NULL
+// reference works on a private copy; of a list reference the element is handed on as it is.
+//@ func (*Type).OfType [C16,C07]
+//@   requires t != nil && t.schema != nil
+//@   modifies nothing
+//@   at `WrapTypeFromType(t.schema, &cpy)` requires arg0 == t.schema && local(arg1)
+//@   at `WrapTypeFromType(t.schema, t.typ.Elem)` requires arg0 == t.schema && arg1 == t.typ.Elem
+//@   ensures old(t.typ) == nil ==> res0 == nil
